@@ -2,7 +2,7 @@
    Transcribes
      daemon/internal/newrelic/collector/collector.go  LicenseKey.String, RpmCmd.url(obfuscate)
      daemon/internal/newrelic/collector/client.go     removeURLFromError (on a model of url.Error formatting)
-     daemon/cmd/daemon/main.go                        redactArgs (the ARGV echo)
+     daemon/cmd/daemon/main.go                        redactArgs (the ARGV echo, as of commit 3800b33)
    together with a model of Go's flag syntax (flag.FlagSet.parseOne) saying which argv positions carry
    the proxy setting, and of the configuration lexer used by --define (config.ParseString) as far as
    the keyword/value structure goes.  Byte strings are `list N`.  Definitions only. *)
@@ -160,37 +160,6 @@ Definition split_eq (name : str) : str * option str :=
 (* arg[:len(arg)-len(value)] *)
 Definition drop_value (arg value : str) : str := firstn (length arg - length value) arg.
 
-(* one iteration of the loop: state (redactNext, defineNext), returns the new state and out[i] *)
-Definition redact_one (st : bool * bool) (arg : str) : (bool * bool) * str :=
-  let '(rn, dn) := st in
-  if rn then ((false, dn), s_redacted)
-  else if dn then ((rn, false), if contains s_proxy arg then s_redacted else arg)
-  else match arg with
-       | a0 :: c :: rest =>                      (* len(arg) >= 2 *)
-           if negb (a0 =? 45) then ((rn, dn), arg) else      (* arg[0] != '-' *)
-           let '(name, value) := split_eq (strip_dash (c :: rest)) in
-           if str_eqb name s_proxy || str_eqb name s_x then
-             match value with
-             | Some v => ((rn, dn), drop_value arg v ++ s_redacted)
-             | None => ((true, dn), arg)
-             end
-           else if str_eqb name s_define then
-             match value with
-             | None => ((rn, true), arg)
-             | Some v => ((rn, dn), if contains s_proxy v then drop_value arg v ++ s_redacted else arg)
-             end
-           else ((rn, dn), arg)
-       | _ => ((rn, dn), arg)
-       end.
-
-Fixpoint redact_from (st : bool * bool) (args : list str) : list str :=
-  match args with
-  | [] => []
-  | a :: r => let '(st', o) := redact_one st a in o :: redact_from st' r
-  end.
-
-Definition redact_args (args : list str) : list str := redact_from (false, false) args.
-
 (* -------------------------------------------------------- Go flag syntax (FlagSet.parseOne) *)
 
 Inductive tok :=
@@ -252,9 +221,64 @@ Definition is_proxy_name (n : str) : bool := str_eqb n s_proxy || str_eqb n s_x.
 Definition is_define_name (n : str) : bool := str_eqb n s_define.
 Definition is_trigger_name (n : str) : bool := is_proxy_name n || is_define_name n.
 
-(* the flag sets to which the statements apply: the proxy / define flags take a value *)
-Definition flagset_ok (fl : flagset) : Prop :=
-  forall n, is_trigger_name n = true -> fl n <> Some FBool.
+(* --------------------------------------------------- redactArgs, the loop (as of commit 3800b33) *)
+
+(* takesValue: the option is looked up in the new flag set, then in the legacy one; unknown options and
+   boolean flags take no value *)
+Definition takes_value (n : str) : bool :=
+  match lookup_flag new_flag_table n with
+  | Some FValue => true
+  | Some FBool => false
+  | None => match lookup_flag legacy_flag_table n with
+            | Some FValue => true
+            | _ => false
+            end
+  end.
+
+(* the switch: what is written to out[at]; has_value tells whether the value is the text after '=' in
+   arg (then the prefix of arg is kept) or the following argument (then it is replaced whole) *)
+Definition redact_value (name arg value : str) (has_value : bool) : str :=
+  let hit := if has_value then drop_value arg value ++ s_redacted else s_redacted in
+  let keep := if has_value then arg else value in
+  if str_eqb name s_proxy || str_eqb name s_x then hit
+  else if str_eqb name s_define then (if contains s_proxy value then hit else keep)
+  else keep.
+
+(* the loop from i = 1: `break` copies the remaining arguments unchanged *)
+Fixpoint redact_walk (args : list str) : list str :=
+  match args with
+  | [] => []
+  | arg :: rest =>
+      match arg with
+      | a0 :: c :: r =>                                   (* len(arg) >= 2 *)
+          if negb (a0 =? 45) then args                    (* arg[0] != '-': break *)
+          else if (c =? 45) && is_nil r then args         (* "--": break *)
+          else
+            let '(name, value) := split_eq (strip_dash (c :: r)) in
+            match value with
+            | Some v => redact_value name arg v true :: redact_walk rest
+            | None =>
+                if negb (takes_value name) then arg :: redact_walk rest
+                else match rest with
+                     | [] => [arg]                        (* i+1 >= len(args): continue, loop ends *)
+                     | v :: rest' => arg :: redact_value name arg v false :: redact_walk rest'
+                     end
+            end
+      | _ => args                                         (* len(arg) < 2: break *)
+      end
+  end.
+
+(* args[0] is copied as it is *)
+Definition redact_args (args : list str) : list str :=
+  match args with
+  | [] => []
+  | prog :: rest => prog :: redact_walk rest
+  end.
+
+(* the flag sets to which the statement applies: takesValue agrees with the flag set on every option the
+   flag set defines (both of the daemon's flag sets do) *)
+Definition agrees (fl : flagset) : Prop :=
+  forall n k, fl n = Some k -> takes_value n = match k with FValue => true | FBool => false end.
 
 (* ------------------------------------------------- the configuration lexer behind --define *)
 
@@ -398,41 +422,6 @@ Fixpoint blank (fl : flagset) (args : list str) : list str :=
           | None => args
           end
       | _ => args
-      end
-  end.
-
-(* redactArgs would arm redactNext / defineNext on this argument *)
-Definition redact_trigger (v : str) : bool :=
-  match v with
-  | v0 :: c :: rest =>
-      if negb (v0 =? 45) then false else
-      let '(name, value) := split_eq (strip_dash (c :: rest)) in
-      match value with None => is_trigger_name name | Some _ => false end
-  | _ => false
-  end.
-
-(* guard of the partial theorem: no value-taking flag other than the proxy / define flags is given a
-   value that redactArgs takes for a -proxy / -x / -define flag *)
-Fixpoint shadow_free (fl : flagset) (args : list str) : bool :=
-  match args with
-  | [] => true
-  | a :: rest =>
-      match classify a with
-      | TFlag name value =>
-          match fl name with
-          | Some FBool => shadow_free fl rest
-          | Some FValue =>
-              match value with
-              | Some _ => shadow_free fl rest
-              | None => match rest with
-                        | [] => true
-                        | v :: rest' =>
-                            (is_trigger_name name || negb (redact_trigger v)) && shadow_free fl rest'
-                        end
-              end
-          | None => true
-          end
-      | _ => true
       end
   end.
 
